@@ -133,6 +133,24 @@ Theorem C09_op_table_java_refuted_boxed_long :
 Proof. exact (java_refuted_long_of_table _ C09_gen_table_java). Qed.
 Print Assumptions C09_op_table_java_refuted_boxed_long.
 
+(** Where both operands are references the (repaired) Java transpiler writes
+    [Objects.equals(l, r)] / [![Objects.equals(l, r)]] instead of the table token; on two
+    references that computes Python's [==] / [!=] for every comparable pair. The
+    generated template list is empty on a tree without the repair — then
+    [C09_op_table_java_refuted] is a defect of the generated SDK, found again by the
+    compile-and-run stream. *)
+Theorem C09_gen_java_value_equality : value_eq_templates_ok java_value_eq_templates = true.
+Proof. vm_compute. reflexivity. Qed.
+Print Assumptions C09_gen_java_value_equality.
+
+Theorem C09_java_value_equality_sound : forall op v w a b x y,
+  (op = EQ \/ op = NE) -> comparable op v w ->
+  java_repr v (JRef a x) -> java_repr w (JRef b y) ->
+  sem_java_objects_equals (match op with NE => true | _ => false end) (JRef a x) (JRef b y)
+  = py_cmp op v w.
+Proof. exact java_objects_equals_sound. Qed.
+Print Assumptions C09_java_value_equality_sound.
+
 (** ** TypeScript. Full statement (false):
       forall op tok v w, lookup_cmp typescript_comparison_map op = Some tok ->
         comparable op v w -> sem_ts tok (ts_repr v) (ts_repr w) = py_cmp op v w.
